@@ -13,6 +13,17 @@ SRV_TB = ["the TCP runner harness/src/srv.rs + resp.rs (independent RESP client)
           "model clock = logical time advanced only by SLEEP ops; histories whose real time drifts > 80 ms from it are discarded"]
 
 PROPS = {
+    "C03": {
+        "n": {"quick": 300, "thorough": 6000},
+        "judge": True,
+        "diff_is_failure": True,
+        "trivial_outs": set(),
+        "rule": "cases = stored witnesses (corpus/C03) + systematic sweeps (every (start, stop) in [-len-2, len+2]^2 for LRANGE/LINDEX/LSET/LTRIM on lists of length <= 3 (thorough: <= 5), LREM for every count around the number of occurrences, SUNION/SINTER/SDIFF over every 1..3-key combination of {missing, set, set, other type}) + random histories of 1..70 commands of the list/set/hash families (plus SET/DEL/EXPIRE/PERSIST/TYPE) on typed colliding key pools, with a malformed share (arity, non-bulk argument, non-integer, wrong type); each history runs against a fresh server process over TCP and ends with a dump (TYPE, LRANGE 0 -1, SMEMBERS, HGETALL, PTTL of every pool key, KEYS *, DBSIZE); one evaluation = one command whose canonical reply (errors by first word, unordered replies sorted) is compared between the server and the extracted Gallina model; SPOP/SRANDMEMBER replies are fed to the model as oracle and checked for admissibility; distinct = distinct (operation, output) pairs",
+        "explanation": "theorems: LRANGE/LTRIM window = Redis rule for all lists/start/stop outside the class lrange-stop-underflow (and exact behaviour inside it), LINDEX/LSET addressing, LREM for all counts, failure atomicity of every command, no empty collection stored + unique members/fields after every history, set algebra over all combinations of existing/missing keys, soundness of SPOP/SRANDMEMBER for every admissible oracle choice, HSET/HDEL counts and lookups; refuted: 7 classes (known_findings.json); tie: differential run of the real server against the extracted model + an independent property oracle on the server's outputs (no empty collection visible, no duplicates, random picks are members, LRANGE stop<-len empty)",
+        "trusted_base": SRV_TB + ["inputs that crash the unchanged server (LREM isize::MIN, SRANDMEMBER i64::MIN / huge negative count, HINCRBY overflow) are excluded from the random stream and replayed only as known-finding witnesses"],
+        "assumptions": ["no key expires during a history (only long TTLs are generated): the engine functions of this family do not check expiry (DESIGN F-02b, property C02)",
+                        "commands are executed one at a time by the single command thread"],
+    },
     "C01": {
         "n": {"quick": 250, "thorough": 4000},
         "diff_is_failure": True,
@@ -48,6 +59,19 @@ PROPS = {
         "trusted_base": SRV_TB + ["tools/gen_tables.py: per-function census of mark_modified call sites in engine.rs"],
         "assumptions": ["list/set/hash/zset/stream writers are added to the catalogue as their families are merged"],
     },
+    "C02": {
+        "n": {"quick": 40, "thorough": 600}, "diff_is_failure": True, "judge": True, "trivial_outs": {"i1", ""}, "run_timeout": 2400,
+        "rule": "sweeper paused through the VERIF hook; (a) random histories of TTL setters (PX 200/400, EX 1, SETEX, PSETEX, EXPIRE, PEXPIRE incl. <= 0), overwrites, PERSIST, RENAME, in-place modifications and reads on 4 keys (two sharing an engine shard), SLEEP 300 steps of the logical clock and full sweeper passes started at known instants, ending with a dump (VERIF INDEX 0 = key/stored deadline/indexed deadline/present, EXISTS/PTTL/GET); (b) for each of 13 racing commands x {TTL still set, TTL already cleared}: SET t PX 200, sleep, sweeper stopped between its scan and its deletions, the racing command, release, dump, another pass, dump; one evaluation = one reply or dump compared with the model; distinct = distinct (command, reply) pairs",
+        "explanation": "theorems: never-early over all interleavings of the two sweeper phases with client commands, sweeper only removes, sweep completeness, lazy expiry of GET/EXISTS, TTL bookkeeping, TTL/PTTL replies; tie: stepped/gated real sweeper on a logical clock",
+        "trusted_base": SRV_TB + ["the VERIF hook (cfg ferrous_verif): sweeper PAUSE/STEP/GATE/RELEASE/WAITING/PASSES and INDEX dump"],
+        "assumptions": ["list/set/hash/zset/stream keys are covered as their families are merged", "the clock itself and the sweeper's 1 s period are not modelled (theorems hold for any period)"],
+    },
+    "C05": {
+        "n": {"quick": 60, "thorough": 1200}, "diff_is_failure": True, "trivial_outs": {"i1", ""}, "run_timeout": 2400,
+        "rule": "raw byte streams on one connection: 1-12 (sometimes 150-250) requests per write drawn from the string/key catalogue plus hostile shapes (CR LF inside command names and arguments, fake replies inside names, empty/null arrays, non-array frames, inline PING, nested arrays, 600-byte noise arguments), optionally followed by QUIT or by one of 8 protocol violations, sent whole / byte-at-a-time / cut inside CR LF / 2-6 random cuts; the harness collects everything the server sends until quiet, decodes it with its own RESP reader and compares the canonical frame sequence and the close flag with the model; then PING on the same and on another connection",
+        "explanation": "theorems: one reply per frame, reads compose, segmentation independence, reply = one frame, client decodes exactly the replies; tie: raw-stream differential runs",
+        "trusted_base": SRV_TB, "assumptions": ["requests contain no RESP3 double frames (f64 text oracle not used at connection level)", "a read never exceeds 8192 bytes in the implementation; pipelines with QUIT or a protocol violation are kept below that"],
+    },
     "C20": {
         "n": {"quick": 400, "thorough": 6000},
         "judge": True,
@@ -77,6 +101,24 @@ PROPS = {
         "explanation": "theorems: static completeness (a full iteration over an unchanged key space returns exactly the matching live keys, each once), termination measure, soundness, completeness under modifications that sort at or after the position reached, refutation of the unrestricted claim (c19_concurrent_refuted, F-19a); tie: differential run of engine.rs scan/hscan/sscan/zscan and commands/scan.rs against the extracted model; property oracle: every key present throughout a complete iteration is returned (class scan-shift when a key below the position reached was added or deleted), nothing foreign is returned",
         "trusted_base": ["oracle: Rust std f64 Display for ZSCAN scores that are not integers below 2^53 (text taken from the implementation)", "MATCH on keys that are not valid UTF-8 goes through from_utf8_lossy in the implementation; the model matches bytes (generator: ASCII plus isolated invalid bytes)"],
         "assumptions": ["x- cases: real sleeps make short TTLs pass; a key that was given a short TTL is not written again in that case (sweeper timing)"],
+    },
+    "C15": {
+        "n": {"quick": 400, "thorough": 5000},
+        "judge": True, "needs_server": False, "shards": 8,
+        "trivial_outs": set(),
+        "rule": "cases = histories of XADD (auto IDs with bursts, explicit ascending / equal / smaller / future / malformed IDs), XDEL, XTRIM, XRANGE/XREVRANGE/XREAD with bounds below, inside, between and above the stored IDs with and without COUNT, XLEN, DEL/RENAME, arity and non-bulk errors, on 4 stream keys + a string key, each ending with a dump (TYPE, XLEN, XRANGE - +, XINFO, XPENDING per group, KEYS, DBSIZE); one evaluation = one command's canonical reply compared between the ferrous server (fresh process per history, TCP) and the extracted Gallina model; the ID of XADD * is passed to the model as an oracle and checked for admissibility",
+        "explanation": "theorems: stream invariant (sorted, ids <= last_id, atomics and length counter agree) over all histories; auto IDs exceed every earlier ID for every clock reading; refused XADD changes nothing; XRANGE/XREVRANGE/XREAD equal the filter of the present entries outside the class xrange-end-below-first; XLEN = number of present entries; tie: differential run against the server + property oracle (BTreeMap reference driven by the implementation's replies)",
+        "trusted_base": ["oracle: the wall-clock reading behind XADD * (the model accepts exactly the IDs some clock reading can produce)"],
+        "assumptions": ["std's binary_search contract on a sorted duplicate-free Vec (sortedness is a proved invariant of the model)", "single command thread: compare_exchange_weak on the ID atomics never fails spuriously"],
+    },
+    "C16": {
+        "n": {"quick": 400, "thorough": 5000},
+        "judge": True, "needs_server": False, "shards": 8,
+        "trivial_outs": set(),
+        "rule": "cases = histories over 2 streams x 2 groups x 3 consumers: XGROUP CREATE/DESTROY/SETID/CREATECONSUMER/DELCONSUMER, XREADGROUP (> and explicit IDs, COUNT, NOACK, BLOCK, several keys), XACK (repeated, unknown IDs), XCLAIM (idle thresholds 0 / 200 ms / never, FORCE, JUSTID), XPENDING (summary, ranges, per consumer), XINFO, XADD/XDEL/XTRIM/DEL/RENAME in between, 450 ms sleeps for the idle thresholds, each ending with a dump of every group's pending state; one evaluation = one command's canonical reply compared between the ferrous server and the extracted Gallina model (idle times zeroed on both sides)",
+        "explanation": "theorems: the four representations of the pending set agree over all histories of >-reads, XACK, XCLAIM, DELCONSUMER, CREATECONSUMER, DESTROY; > delivers in strictly increasing ID order, each entry once; XACK counts once; XPENDING summary equals the pending set; refuted: $ start, NOACK, explicit-ID read, SETID re-delivery",
+        "trusted_base": ["idle times are compared through thresholds separated from the harness clock drift (80 ms) by 450 ms sleeps"],
+        "assumptions": ["single command thread (no concurrent access to a group)"],
     },
 }
 
